@@ -36,8 +36,8 @@ def run(ctx):
     cfg = "MCShelleyAddr.cfg"
     if ctx.thorough:
         cfg = _cfg(ctx, "MCthorough.cfg", "MCShelleyAddr.cfg",
-                   [("PtrInts = {0, 127, 128}", "PtrInts = {0, 127, 128, 16383, 16384}"),
-                    ("WithU64Edges = FALSE", "WithU64Edges = TRUE"), ("PtrNets = {0, 1}", "PtrNets = {0, 1, 15}")])
+                   [("PtrInts = {0, 127, 128}", "PtrInts = {0, 127, 128, 16384}"),
+                    ("WithU64Edges = FALSE", "WithU64Edges = TRUE"), ("PtrNets = {0, 1}", "PtrNets = {1, 15}")])
     ctx.tlc_mc("addr", "MCShelleyAddr", cfg, workers=4,
                required_actions=["CallToHeader", "CallToVec", "CallToHex", "CallHrp", "CallToBech32", "CallParse",
                                  "CallParseBack"])
@@ -79,7 +79,7 @@ def run(ctx):
         ctx.report(key, "Address::%s differs from the specification for %s: %s" % (at, json.dumps(a)[:300], json.dumps(r)[:600]), payload=r)
 
     # 3. M3: random addresses -> trace spec
-    n = 1500 if ctx.thorough else 320
+    n = 3000 if ctx.thorough else 320
     tr = ctx.path("trace.ndjson")
     ctx.run_bin(binary, ["shelley-trace", "--seed", ctx.seed, "--n", n, "--out", tr])
     ok, matched, total, first = ctx.tlc_trace("addr", "TraceShelleyAddr", "TraceShelleyAddr.cfg", tr)
